@@ -1,6 +1,8 @@
 ---------------------------- MODULE PoolLifeProps ----------------------------
 (* C09 as operators over an observable record r = [scn |-> ..., obs |-> ...].            *)
 (*   scn.force   "none" (pool default) | "false" (user disabled forced termination)       *)
+(*   scn.ctimeout "small" | "none" (Pool(close_timeout=None): wait as long as it takes)      *)
+(*   obs.created "ok" | "raised": the Pool with this configuration could be constructed       *)
 (*   scn.ops     the history (add:<kind> addfail dup:<wid> attach:<kind> run runp         *)
 (*               runl (poison that leaves the worker's process lingering) runabort (run     *)
 (*               abandoned by the worker_callback at the first 'enqueued')                 *)
@@ -38,6 +40,8 @@ NoWorkToDeadS(r, s)     == IsRun(s.op) => s.dead_got_work = 0
 RestartedGetWorkS(r, s) == (IsRun(s.op) /\ s.outcome = "ok") => s.restarted_no_work = 0
 NoLeakS(r, s)           == (IsReg(s.op) /\ s.outcome = "raised") => s.live_unreg = 0
 
+\* every configuration of the quantifier (close_timeout small / None, force default / False) yields a pool
+C09_Configurable(r)     == r.obs.created = "ok"
 C09_AllDead(r)          == \A s \in Steps(r) : AllDeadS(r, s)
 C09_RunIsolated(r)      == \A s \in Steps(r) : RunIsolatedS(r, s)
 C09_NoWorkToDead(r)     == \A s \in Steps(r) : NoWorkToDeadS(r, s)
